@@ -143,11 +143,14 @@ structure TermInv (st : State) : Prop where
   reqs : ∀ src off ep rid, Net.replReq src off ep rid ∈ st.net →
     -1 ≤ off ∧ ∃ sr, st.get src = some sr ∧ off ≤ sr.log.newest
   resps : ∀ dst rid ep hw recs, Net.replResp dst rid ep hw recs ∈ st.net → Sorted recs
+  /-- the offset at which a replica was last seen caught up is an offset it really stores -/
+  cu : ∀ l sv, st.get l = some sv → ∀ r v, lookup sv.caughtUp r = some v →
+    ∃ sr, st.get r = some sr ∧ v ≤ sr.log.newest
 
 /-- Steps that neither change a role nor truncate a log. -/
 def InTerm : Step → Prop
   | .publish .. | .fetch _ | .serve .. | .applyResp .. | .drop _ | .commit _ | .shrinkDecision ..
-  | .expandDecision .. | .clearCaughtUp .. | .electDecision _ | .raftCommit _ | .offServe .. => True
+  | .expandDecision .. | .clearCaughtUp .. | .clearSeen .. | .electDecision _ | .raftCommit _ | .offServe .. => True
   | _ => False
 
 /-- Replacing server `i` by one whose log is well-formed and has only grown, whose recorded
@@ -156,7 +159,9 @@ theorem TermInv.set {st : State} (J : TermInv st) {i : Sid} {sv sv' : Srv} (hi :
     (hlog : LogOK sv'.log) (hgrow : sv.log.newest ≤ sv'.log.newest)
     (hoffs : ∀ r v, lookup sv'.isrOff r = some v →
       lookup sv.isrOff r = some v ∨ (r = i ∧ v ≤ sv'.log.newest) ∨
-      ∃ ep rid, Net.replReq r v ep rid ∈ st.net) :
+      ∃ ep rid, Net.replReq r v ep rid ∈ st.net)
+    (hcu : ∀ r v, lookup sv'.caughtUp r = some v →
+      lookup sv.caughtUp r = some v ∨ ∃ ep rid, Net.replReq r v ep rid ∈ st.net) :
     TermInv (st.set i sv') := by
   have hlt := get_lt hi
   -- every server's newest offset only grows
@@ -167,7 +172,7 @@ theorem TermInv.set {st : State} (J : TermInv st) {i : Sid} {sv sv' : Srv} (hi :
       rw [hi] at hr; cases hr
       exact ⟨sv', get_set_self sv' hlt, hgrow⟩
     · exact ⟨sr, by rw [get_set_ne sv' hri]; exact hr, Int.le_refl _⟩
-  refine ⟨?_, ?_, ?_, ?_⟩
+  refine ⟨?_, ?_, ?_, ?_, ?_⟩
   · intro s x hs
     by_cases hsi : s = i
     · subst hsi; rw [get_set_self sv' hlt] at hs; cases hs; exact hlog
@@ -195,6 +200,23 @@ theorem TermInv.set {st : State} (J : TermInv st) {i : Sid} {sv sv' : Srv} (hi :
     obtain ⟨sr', hsr', hle'⟩ := hget src sr hsr
     exact ⟨h1, sr', hsr', Int.le_trans hle hle'⟩
   · exact J.resps
+  · intro l x hl r v hv
+    have old : ∀ y, st.get l = some y → lookup y.caughtUp r = some v →
+        ∃ sr, (st.set i sv').get r = some sr ∧ v ≤ sr.log.newest := by
+      intro y hy hyv
+      obtain ⟨sr, hsr, hle⟩ := J.cu l y hy r v hyv
+      obtain ⟨sr', hsr', hle'⟩ := hget r sr hsr
+      exact ⟨sr', hsr', Int.le_trans hle hle'⟩
+    by_cases hli : l = i
+    · subst hli
+      rw [get_set_self sv' hlt] at hl; cases hl
+      rcases hcu r v hv with h1 | ⟨ep, rid, h1⟩
+      · exact old sv hi h1
+      · obtain ⟨_, sr, hsr, hle⟩ := J.reqs r v ep rid h1
+        obtain ⟨sr', hsr', hle'⟩ := hget r sr hsr
+        exact ⟨sr', hsr', Int.le_trans hle hle'⟩
+    · rw [get_set_ne sv' hli] at hl
+      exact old x hl hv
 
 /-- Changing only the in-flight messages. -/
 theorem TermInv.net {st : State} (J : TermInv st) (net' : List Net)
@@ -203,7 +225,7 @@ theorem TermInv.net {st : State} (J : TermInv st) (net' : List Net)
     (hresp : ∀ dst rid ep hw recs, Net.replResp dst rid ep hw recs ∈ net' →
       Net.replResp dst rid ep hw recs ∈ st.net ∨ Sorted recs) :
     TermInv { st with net := net' } := by
-  refine ⟨J.logs, J.offs, ?_, ?_⟩
+  refine ⟨J.logs, J.offs, ?_, ?_, J.cu⟩
   · intro src off ep rid hm
     rcases hreq src off ep rid hm with h | h
     · exact J.reqs src off ep rid h
@@ -214,14 +236,14 @@ theorem TermInv.net {st : State} (J : TermInv st) (net' : List Net)
     · exact h
 
 theorem TermInv.acks {st : State} (J : TermInv st) (a : List Ack) : TermInv { st with acks := a } :=
-  ⟨J.logs, J.offs, J.reqs, J.resps⟩
+  ⟨J.logs, J.offs, J.reqs, J.resps, J.cu⟩
 
 theorem TermInv.proposed {st : State} (J : TermInv st) (p : List MetaOp) : TermInv { st with proposed := p } :=
-  ⟨J.logs, J.offs, J.reqs, J.resps⟩
+  ⟨J.logs, J.offs, J.reqs, J.resps, J.cu⟩
 
 theorem TermInv.committed {st : State} (J : TermInv st) (p q : List MetaOp) :
     TermInv { st with proposed := p, committed := q } :=
-  ⟨J.logs, J.offs, J.reqs, J.resps⟩
+  ⟨J.logs, J.offs, J.reqs, J.resps, J.cu⟩
 
 theorem mem_removeFirst {α} [DecidableEq α] {l : List α} {a x : α} (h : x ∈ removeFirst l a) : x ∈ l := by
   induction l with
@@ -290,13 +312,15 @@ theorem serveStep_spec (c : Cfg) (sv : Srv) (src : Sid) (off : Int) (ep rid : Na
     (serveStep c sv src off ep rid).1.log = sv.log ∧
     (∀ x w, lookup (serveStep c sv src off ep rid).1.isrOff x = some w →
       lookup sv.isrOff x = some w ∨ (x = src ∧ w = off)) ∧
+    (∀ x w, lookup (serveStep c sv src off ep rid).1.caughtUp x = some w →
+      lookup sv.caughtUp x = some w ∨ (x = src ∧ w = off)) ∧
     (∀ m ∈ (serveStep c sv src off ep rid).2, ∃ e hw recs, m = Net.replResp src rid e hw recs ∧
       (recs = [] ∨ (off < sv.log.newest ∧ sv.log.readUncommitted (off + 1) = .ok recs))) := by
   unfold serveStep
   split
-  · exact ⟨rfl, fun x w h => Or.inl h, by simp⟩
+  · exact ⟨rfl, fun x w h => Or.inl h, fun x w h => Or.inl h, by simp⟩
   · split
-    · exact ⟨rfl, fun x w h => Or.inl h, by simp⟩
+    · exact ⟨rfl, fun x w h => Or.inl h, fun x w h => Or.inl h, by simp⟩
     · simp only
       have hup : ∀ x w, lookup (updateOffset sv.isrOff src off).1 x = some w →
           lookup sv.isrOff x = some w ∨ (x = src ∧ w = off) := by
@@ -304,14 +328,25 @@ theorem serveStep_spec (c : Cfg) (sv : Srv) (src : Sid) (off : Int) (ep rid : Na
         rcases lookup_updateOffset _ _ _ _ _ h with h | h
         · exact Or.inr h
         · exact Or.inl h
+      have hset : ∀ x w, lookup (mSet sv.caughtUp src off) x = some w →
+          lookup sv.caughtUp x = some w ∨ (x = src ∧ w = off) := by
+        intro x w h
+        rcases lookup_mSet _ _ _ _ _ h with h | h
+        · exact Or.inr h
+        · exact Or.inl h
       split
-      · refine ⟨rfl, hup, ?_⟩
+      · refine ⟨rfl, hup, hset, ?_⟩
         intro m hm
         simp only [List.mem_singleton] at hm
         exact ⟨_, _, [], hm, Or.inl rfl⟩
       · rename_i hcu
         simp only [Gen.Protocol.caughtUpCmp, Cmp.evalInt, decide_eq_true_eq, ge_iff_le, Int.not_le] at hcu
-        refine ⟨rfl, hup, ?_⟩
+        refine ⟨rfl, hup, ?_, ?_⟩
+        · intro x w h
+          simp only at h
+          split at h
+          · exact Or.inl h
+          · exact hset x w h
         intro m hm
         simp only [List.mem_singleton] at hm
         cases hr : sv.log.readUncommitted (off + Gen.Protocol.serveReadAddend) with
@@ -346,21 +381,21 @@ theorem applyRespStep_eq_core (sv : Srv) (ep : Nat) (hw : Int) (recs : List Rec)
 theorem applyRespCore_spec (cap : CLog → Int) (again : Bool) (sv : Srv) (ep : Nat) (recs : List Rec)
     (hlog : LogOK sv.log) (hs : Sorted recs) :
     LogOK (applyRespCore cap again sv ep recs).log ∧ sv.log.newest ≤ (applyRespCore cap again sv ep recs).log.newest ∧
-    (applyRespCore cap again sv ep recs).isrOff = sv.isrOff := by
+    (applyRespCore cap again sv ep recs).isrOff = sv.isrOff ∧ (applyRespCore cap again sv ep recs).caughtUp = sv.caughtUp := by
   unfold applyRespCore
   split
-  · exact ⟨hlog, Int.le_refl _, rfl⟩
+  · exact ⟨hlog, Int.le_refl _, rfl, rfl⟩
   · split
-    · exact ⟨hlog, Int.le_refl _, rfl⟩
+    · exact ⟨hlog, Int.le_refl _, rfl, rfl⟩
     · simp only
       generalize cap sv.log = x
       have hl' := hlog.setHW x
       have hn' : (sv.log.setHW x).newest = sv.log.newest := newest_setHW _ _
       split
-      · exact ⟨hl', by rw [hn']; exact Int.le_refl _, rfl⟩
+      · exact ⟨hl', by rw [hn']; exact Int.le_refl _, rfl, rfl⟩
       · rename_i r rest
         split
-        · exact ⟨hl', by rw [hn']; exact Int.le_refl _, rfl⟩
+        · exact ⟨hl', by rw [hn']; exact Int.le_refl _, rfl, rfl⟩
         · rename_i hoff
           simp only [Gen.Protocol.replRespOffsetCmp, Cmp.evalInt, decide_eq_true_eq, Int.not_lt] at hoff
           split
@@ -374,27 +409,27 @@ theorem applyRespCore_spec (cap : CLog → Int) (again : Bool) (sv : Srv) (ep : 
             obtain ⟨h1, h2⟩ := appendSet_grow hl' (by simp) hs hge ha
             simp only
             cases again with
-            | false => exact ⟨h1, by rw [← hn']; exact h2, trivial⟩
+            | false => exact ⟨h1, by rw [← hn']; exact h2, trivial, trivial⟩
             | true =>
               simp only [if_true]
-              exact ⟨h1.setHW _, by rw [newest_setHW, ← hn']; exact h2, trivial⟩
-          · exact ⟨hl', by rw [hn']; exact Int.le_refl _, rfl⟩
+              exact ⟨h1.setHW _, by rw [newest_setHW, ← hn']; exact h2, trivial, trivial⟩
+          · exact ⟨hl', by rw [hn']; exact Int.le_refl _, rfl, rfl⟩
 
 theorem applyRespStep_spec (sv : Srv) (ep : Nat) (hw : Int) (recs : List Rec) (hlog : LogOK sv.log)
     (hs : Sorted recs) :
     LogOK (applyRespStep sv ep hw recs).log ∧ sv.log.newest ≤ (applyRespStep sv ep hw recs).log.newest ∧
-    (applyRespStep sv ep hw recs).isrOff = sv.isrOff := by
+    (applyRespStep sv ep hw recs).isrOff = sv.isrOff ∧ (applyRespStep sv ep hw recs).caughtUp = sv.caughtUp := by
   rw [applyRespStep_eq_core]
   exact applyRespCore_spec _ _ sv ep recs hlog hs
 
 theorem commitStep_spec (c : Cfg) (sv : Srv) (hlog : LogOK sv.log) :
     LogOK (commitStep c sv).1.log ∧ (commitStep c sv).1.log.newest = sv.log.newest ∧
-    (commitStep c sv).1.isrOff = sv.isrOff := by
+    (commitStep c sv).1.isrOff = sv.isrOff ∧ (commitStep c sv).1.caughtUp = sv.caughtUp := by
   unfold commitStep
   simp only
   split
-  · exact ⟨hlog, rfl, rfl⟩
-  · exact ⟨hlog.setHW _, newest_setHW _ _, rfl⟩
+  · exact ⟨hlog, rfl, rfl, rfl⟩
+  · exact ⟨hlog.setHW _, newest_setHW _ _, rfl, rfl⟩
 
 theorem publishStep_spec {c : Cfg} {me : Sid} {sv sv' : Srv} {b : List PubMsg} {acks : List Ack}
     (hlog : LogOK sv.log) (h : publishStep c me sv b = some (sv', acks)) :
@@ -445,6 +480,43 @@ theorem publishStep_spec {c : Cfg} {me : Sid} {sv sv' : Srv} {b : List PubMsg} {
       · right; exact ⟨h1, by rw [h2, hl2.2, g3]; exact Int.le_refl _⟩
       · left; exact h1
 
+theorem publishStep_caughtUp {c : Cfg} {me : Sid} {sv sv' : Srv} {b : List PubMsg} {acks : List Ack}
+    (h : publishStep c me sv b = some (sv', acks)) : sv'.caughtUp = sv.caughtUp := by
+  unfold publishStep at h
+  simp only at h
+  generalize screen me sv.leaderEpoch b = sc at h
+  obtain ⟨okMsgs, nacks⟩ := sc
+  simp only at h
+  repeat' (split at h)
+  all_goals first
+    | (cases h; done)
+    | (simp only [Option.some.injEq, Prod.mk.injEq] at h; rw [← h.1])
+
+theorem lookup_mErase (m : List (Sid × Int)) (k r : Sid) (w : Int) (h : lookup (mErase m k) r = some w) :
+    lookup m r = some w := by
+  induction m with
+  | nil => simp [mErase, lookup] at h
+  | cons p ps ih =>
+    obtain ⟨k', v'⟩ := p
+    simp only [mErase, List.filter_cons] at h
+    split at h
+    · rw [lookup_cons] at h ⊢
+      split at h
+      · rename_i hk; rw [if_pos hk]; exact h
+      · rename_i hk; rw [if_neg hk]; exact ih h
+    · rename_i hk
+      simp only [ne_eq, decide_not, Bool.not_eq_true', decide_eq_false_iff_not, Decidable.not_not] at hk
+      have hr : lookup ps r = some w := ih h
+      rw [lookup_cons]
+      by_cases hkr : k' = r
+      · -- r = k was erased from the tail as well: contradiction
+        exfalso
+        subst hkr; subst hk
+        have hm := lookup_mem h
+        simp only [List.mem_filter] at hm
+        simpa using hm.2
+      · rw [if_neg hkr]; exact hr
+
 /-! ### preservation -/
 
 theorem termInv_step (c : Cfg) (st st' : State) (s : Step) (J : TermInv st) (hs : InTerm s)
@@ -457,12 +529,13 @@ theorem termInv_step (c : Cfg) (st st' : State) (s : Step) (J : TermInv st) (hs 
     exact (J.set hsv h1 h2 (fun r v hv => by
       rcases h3 r v hv with h | h
       · exact Or.inl h
-      · exact Or.inr (Or.inl h))).acks _
+      · exact Or.inr (Or.inl h)) (fun r v hv => by rw [publishStep_caughtUp hp] at hv; exact Or.inl hv)).acks _
   | commit l =>
     obtain ⟨sv, hsv, _, _, hst⟩ := step_commit h
     subst hst
-    obtain ⟨h1, h2, h3⟩ := commitStep_spec c sv (J.logs l sv hsv)
-    exact (J.set hsv h1 (by rw [h2]; exact Int.le_refl _) (fun r v hv => by rw [h3] at hv; exact Or.inl hv)).acks _
+    obtain ⟨h1, h2, h3, h4⟩ := commitStep_spec c sv (J.logs l sv hsv)
+    exact (J.set hsv h1 (by rw [h2]; exact Int.le_refl _) (fun r v hv => by rw [h3] at hv; exact Or.inl hv)
+      (fun r v hv => by rw [h4] at hv; exact Or.inl hv)).acks _
   | fetch f =>
     simp only [step, Option.bind_eq_bind, Option.bind_eq_some_iff, Option.pure_def] at h
     obtain ⟨sv, hsv, h⟩ := h
@@ -471,12 +544,13 @@ theorem termInv_step (c : Cfg) (st st' : State) (s : Step) (J : TermInv st) (hs 
     · simp only [Option.some.injEq] at h
       subst h
       have J1 := J.set (sv' := { sv with rid := sv.rid + 1, waiting := some (sv.rid + 1) }) hsv
-        (J.logs f sv hsv) (Int.le_refl _) (fun r v hv => Or.inl hv)
+        (J.logs f sv hsv) (Int.le_refl _) (fun r v hv => Or.inl hv) (fun r v hv => Or.inl hv)
       refine J1.net _ ?_ ?_
       · intro src off ep rid hm
         rcases List.mem_append.mp hm with hm | hm
         · exact Or.inl hm
-        · simp only [List.mem_singleton, Net.replReq.injEq] at hm
+        · -- the request reports the follower's newest offset (regenerated: Offset = p.log.NewestOffset())
+          simp only [List.mem_singleton, Net.replReq.injEq, fetchFieldsOf, Gen.Protocol.fetchOffsetIsNewest, if_true] at hm
           obtain ⟨rfl, rfl, _, _⟩ := hm
           exact Or.inr ⟨(J.logs src sv hsv).newest_ge, _, get_set_self _ (get_lt hsv), Int.le_refl _⟩
       · intro dst rid ep hw recs hm
@@ -495,7 +569,7 @@ theorem termInv_step (c : Cfg) (st st' : State) (s : Step) (J : TermInv st) (hs 
         simp only [Option.some.injEq] at h
         subst h
         have hmem : Net.replReq src off ep rid ∈ st.net := by simpa using hc.2
-        obtain ⟨g1, g2, g3⟩ := serveStep_spec c sv src off ep rid
+        obtain ⟨g1, g2, g2', g3⟩ := serveStep_spec c sv src off ep rid
         obtain ⟨hoff, _, _, _⟩ := J.reqs src off ep rid hmem
         have J1 := J.set (sv' := (serveStep c sv src off ep rid).1) hsv (by rw [g1]; exact J.logs l sv hsv)
           (by rw [g1]; exact Int.le_refl _)
@@ -503,6 +577,10 @@ theorem termInv_step (c : Cfg) (st st' : State) (s : Step) (J : TermInv st) (hs 
             rcases g2 r v hv with h | ⟨h1, h2⟩
             · exact Or.inl h
             · subst h1; subst h2; exact Or.inr (Or.inr ⟨ep, rid, hmem⟩))
+          (fun r v hv => by
+            rcases g2' r v hv with h | ⟨h1, h2⟩
+            · exact Or.inl h
+            · subst h1; subst h2; exact Or.inr ⟨ep, rid, hmem⟩)
         refine J1.net _ ?_ ?_
         · intro s2 o2 e2 r2 hm
           rcases List.mem_append.mp hm with hm | hm
@@ -533,9 +611,10 @@ theorem termInv_step (c : Cfg) (st st' : State) (s : Step) (J : TermInv st) (hs 
         · simp only [Option.some.injEq] at h
           subst h
           have hmem : Net.replResp dst rid ep hw recs ∈ st.net := by simpa using hc.2
-          obtain ⟨g1, g2, g3⟩ := applyRespStep_spec sv ep hw recs (J.logs f sv hsv) (J.resps _ _ _ _ _ hmem)
+          obtain ⟨g1, g2, g3, g4⟩ := applyRespStep_spec sv ep hw recs (J.logs f sv hsv) (J.resps _ _ _ _ _ hmem)
           have J1 := J.set (sv' := { applyRespStep sv ep hw recs with waiting := none }) hsv g1 g2
             (fun r v hv => by simp only at hv; rw [g3] at hv; exact Or.inl hv)
+            (fun r v hv => by simp only at hv; rw [g4] at hv; exact Or.inl hv)
           exact J1.net _ (fun _ _ _ _ hm => Or.inl (mem_removeFirst hm)) (fun _ _ _ _ _ hm => Or.inl (mem_removeFirst hm))
       all_goals cases h
   | drop m =>
@@ -567,7 +646,16 @@ theorem termInv_step (c : Cfg) (st st' : State) (s : Step) (J : TermInv st) (hs 
     · simp only [Option.some.injEq] at h
       subst h
       exact J.set (sv' := { sv with caughtUp := mErase sv.caughtUp r }) hsv (J.logs l sv hsv) (Int.le_refl _)
-        (fun r v hv => Or.inl hv)
+        (fun r v hv => Or.inl hv) (fun x v hv => Or.inl (lookup_mErase _ _ _ _ hv))
+  | clearSeen l r =>
+    simp only [step, Option.bind_eq_bind, Option.bind_eq_some_iff, Option.pure_def] at h
+    obtain ⟨sv, hsv, h⟩ := h
+    split at h
+    · cases h
+    · simp only [Option.some.injEq] at h
+      subst h
+      exact J.set (sv' := { sv with seen := sv.seen.filter (· ≠ r) }) hsv (J.logs l sv hsv) (Int.le_refl _)
+        (fun r v hv => Or.inl hv) (fun r v hv => Or.inl hv)
   | electDecision cand =>
     simp only [step] at h
     repeat' (split at h)
@@ -579,7 +667,7 @@ theorem termInv_step (c : Cfg) (st st' : State) (s : Step) (J : TermInv st) (hs 
     repeat' (split at h)
     all_goals first
       | (cases h; done)
-      | (simp only [Option.some.injEq] at h; subst h; exact ⟨J.logs, J.offs, J.reqs, J.resps⟩)
+      | (simp only [Option.some.injEq] at h; subst h; exact ⟨J.logs, J.offs, J.reqs, J.resps, J.cu⟩)
   | offServe l m =>
     simp only [step, Option.bind_eq_bind, Option.bind_eq_some_iff, Option.pure_def] at h
     obtain ⟨sv, hsv, h⟩ := h
@@ -630,10 +718,11 @@ theorem termInv_init (c : Cfg) (hm : 0 < c.maxSeg) : TermInv (Protocol.init c) :
     simp only [State.get, Protocol.init] at h
     have := List.mem_of_getElem? h
     exact (List.mem_replicate.mp this).2
-  refine ⟨?_, ?_, ?_, ?_⟩
+  refine ⟨?_, ?_, ?_, ?_, ?_⟩
   · intro s sv h; rw [hget s sv h]; exact hlog
   · intro l sv h r v hv; rw [hget l sv h] at hv; simp [lookup] at hv
   · intro _ _ _ _ hm; simp [Protocol.init] at hm
   · intro _ _ _ _ _ hm; simp [Protocol.init] at hm
+  · intro l sv h r v hv; rw [hget l sv h] at hv; simp [lookup] at hv
 
 end Liftbridge.Proofs.Protocol
